@@ -865,5 +865,15 @@ def o12_limit_is_not_an_interrupt(chk: Check) -> None:
                           loop.loc(a))
 
 
+def o13_memo(chk: Check) -> None:
+    from . import shared
+
+    P = chk.project
+    mods = ('engine/phases/unit/__init__.py', 'engine/phases/unit/_executor.py', 'engine/phases/unit/_pool.py', 'engine/phases/stateful/__init__.py', 'engine/phases/stateful/_executor.py', 'engine/core.py', 'engine/control.py', 'engine/recorder.py', 'cli/commands/run/executor.py', 'cli/commands/run/context.py', 'generation/hypothesis/builder.py', 'checks.py')
+    fns = [f for m in mods if m in P.by_relpath for f in P.module(m).functions.values() if not isinstance(f.node, ast.Lambda)]
+    shared.memo_key_rule(chk, "C05.O13", fns, {("_set_cache_entry", "data"): "a setter: the value to store is handed in by get(), which computed it for this key", ("_get_body_strategy", "operation"): "a parameter belongs to exactly one operation (stated next to the cache)"},
+                         "MEMO-KEY(anchor modules of this property): whether a failure / error is reported is decided per scenario and event: a cache keyed by less than what the cached value is computed from replays another scenario's verdict", floor=0)
+
+
 def rules(tier: str) -> list:  # type: ignore[type-arg]
-    return [o1_thread_targets, o2_run_test_ladder, o3_failure_recording, o3b_run_checks, o4_status_folding, o5_exit_code, o6_marks, o7_plumbing, o8_statistic_accumulates, o9_failure_counter_sites, o10_drain, o11_failure_with_its_request, o12_limit_is_not_an_interrupt, rfwd_forwarding]
+    return [o1_thread_targets, o2_run_test_ladder, o3_failure_recording, o3b_run_checks, o4_status_folding, o5_exit_code, o6_marks, o7_plumbing, o8_statistic_accumulates, o9_failure_counter_sites, o10_drain, o11_failure_with_its_request, o12_limit_is_not_an_interrupt, rfwd_forwarding, o13_memo]
